@@ -26,7 +26,7 @@ import (
 func (f *BasePathFile) Chdir() error {
 	err := f.baseFile.Chdir()
 
-	return f.vfs.FromPathError(err)
+	return f.pathError(err)
 }
 
 // Chmod changes the mode of the file to mode.
@@ -34,7 +34,7 @@ func (f *BasePathFile) Chdir() error {
 func (f *BasePathFile) Chmod(mode fs.FileMode) error {
 	err := f.baseFile.Chmod(mode)
 
-	return f.vfs.FromPathError(err)
+	return f.pathError(err)
 }
 
 // Chown changes the numeric uid and gid of the named file.
@@ -45,7 +45,7 @@ func (f *BasePathFile) Chmod(mode fs.FileMode) error {
 func (f *BasePathFile) Chown(uid, gid int) error {
 	err := f.baseFile.Chown(uid, gid)
 
-	return f.vfs.FromPathError(err)
+	return f.pathError(err)
 }
 
 // Close closes the File, rendering it unusable for I/O.
@@ -54,7 +54,7 @@ func (f *BasePathFile) Chown(uid, gid int) error {
 func (f *BasePathFile) Close() error {
 	err := f.baseFile.Close()
 
-	return f.vfs.FromPathError(err)
+	return f.pathError(err)
 }
 
 // Fd returns the integer Unix file descriptor referencing the open file.
@@ -66,7 +66,21 @@ func (f *BasePathFile) Fd() uintptr {
 
 // Name returns the link of the file as presented to Open.
 func (f *BasePathFile) Name() string {
-	return f.vfs.FromBasePath(f.baseFile.Name())
+	return f.name
+}
+
+// pathError restores the name given to OpenFile in the fs.PathError returned by the base file.
+func (f *BasePathFile) pathError(err error) error {
+	e, ok := err.(*fs.PathError)
+	if !ok {
+		return err
+	}
+
+	if e.Path == f.baseFile.Name() {
+		return &fs.PathError{Op: e.Op, Path: f.name, Err: e.Err}
+	}
+
+	return f.vfs.FromPathError(err)
 }
 
 // Read reads up to len(b) bytes from the MemFile.
@@ -75,7 +89,7 @@ func (f *BasePathFile) Name() string {
 func (f *BasePathFile) Read(b []byte) (n int, err error) {
 	n, err = f.baseFile.Read(b)
 
-	return n, f.vfs.FromPathError(err)
+	return n, f.pathError(err)
 }
 
 // ReadAt reads len(b) bytes from the File starting at byte offset off.
@@ -85,7 +99,7 @@ func (f *BasePathFile) Read(b []byte) (n int, err error) {
 func (f *BasePathFile) ReadAt(b []byte, off int64) (n int, err error) {
 	n, err = f.baseFile.ReadAt(b, off)
 
-	return n, f.vfs.FromPathError(err)
+	return n, f.pathError(err)
 }
 
 // ReadDir reads the contents of the directory associated with the file f
@@ -101,7 +115,7 @@ func (f *BasePathFile) ReadAt(b []byte, off int64) (n int, err error) {
 func (f *BasePathFile) ReadDir(n int) ([]fs.DirEntry, error) {
 	de, err := f.baseFile.ReadDir(n)
 
-	return de, f.vfs.FromPathError(err)
+	return de, f.pathError(err)
 }
 
 // Readdirnames reads and returns a slice of names from the directory f.
@@ -119,7 +133,7 @@ func (f *BasePathFile) ReadDir(n int) ([]fs.DirEntry, error) {
 func (f *BasePathFile) Readdirnames(n int) (names []string, err error) {
 	names, err = f.baseFile.Readdirnames(n)
 
-	return names, f.vfs.FromPathError(err)
+	return names, f.pathError(err)
 }
 
 // Seek sets the offset for the next Read or Write on file to offset, interpreted
@@ -130,7 +144,7 @@ func (f *BasePathFile) Readdirnames(n int) (names []string, err error) {
 func (f *BasePathFile) Seek(offset int64, whence int) (ret int64, err error) {
 	ret, err = f.baseFile.Seek(offset, whence)
 
-	return ret, f.vfs.FromPathError(err)
+	return ret, f.pathError(err)
 }
 
 // Stat returns the FileInfo structure describing file.
@@ -138,7 +152,7 @@ func (f *BasePathFile) Seek(offset int64, whence int) (ret int64, err error) {
 func (f *BasePathFile) Stat() (fs.FileInfo, error) {
 	info, err := f.baseFile.Stat()
 
-	return info, f.vfs.FromPathError(err)
+	return info, f.pathError(err)
 }
 
 // Sync commits the current contents of the file to stable storage.
@@ -147,7 +161,7 @@ func (f *BasePathFile) Stat() (fs.FileInfo, error) {
 func (f *BasePathFile) Sync() error {
 	err := f.baseFile.Sync()
 
-	return f.vfs.FromPathError(err)
+	return f.pathError(err)
 }
 
 // Truncate changes the size of the file.
@@ -156,7 +170,7 @@ func (f *BasePathFile) Sync() error {
 func (f *BasePathFile) Truncate(size int64) error {
 	err := f.baseFile.Truncate(size)
 
-	return f.vfs.FromPathError(err)
+	return f.pathError(err)
 }
 
 // Write writes len(b) bytes to the File.
@@ -165,7 +179,7 @@ func (f *BasePathFile) Truncate(size int64) error {
 func (f *BasePathFile) Write(b []byte) (n int, err error) {
 	n, err = f.baseFile.Write(b)
 
-	return n, f.vfs.FromPathError(err)
+	return n, f.pathError(err)
 }
 
 // WriteAt writes len(b) bytes to the File starting at byte offset off.
@@ -174,7 +188,7 @@ func (f *BasePathFile) Write(b []byte) (n int, err error) {
 func (f *BasePathFile) WriteAt(b []byte, off int64) (n int, err error) {
 	n, err = f.baseFile.WriteAt(b, off)
 
-	return n, f.vfs.FromPathError(err)
+	return n, f.pathError(err)
 }
 
 // WriteString is like Write, but writes the contents of string s rather than
